@@ -1,3 +1,5 @@
+import CkcVerif.Model.Ranker
+import CkcVerif.Props.C02
 import CkcVerif.Lemmas.KernNames
 import CkcVerif.Lemmas.HandValue
 /-!
@@ -74,6 +76,39 @@ theorem C06_hand {cs : List Card} (h : IsHand 5 cs) {v : Nat} (e : handRankValue
 example : (HandRank.ofValue 1).name = 0 ∧ (HandRank.ofValue 1).cls = 0 ∧ Gen.classNames.getD 0 "" = "RoyalFlush" := by
   decide +kernel
 
+/-- the rank reported for five distinct real cards (trait default `hand_rank`, and the validated form)
+    carries the hand's value and names the category and class of the hand's own strength -/
+theorem C06_hand_rank_five {cs : List Card} (h : IsHand 5 cs) :
+    ∃ r, handRank packed (words cs) = some r ∧ handRankValidated packed (words cs) = some r ∧
+      handRankValue packed (words cs) = some r.value ∧ r.isInvalid = false ∧
+      Gen.nameNames.getD r.name "" = categoryName (handStrength cs / 13 ^ 5) ∧
+      Gen.classNames.getD r.cls "" = specName (descrOfStrength (handStrength cs)) := by
+  obtain ⟨v, a1, a2, e5, _, e, _, ev, _⟩ := C01.C01_entry_points h
+  obtain ⟨_, _, _, hc, hn⟩ := C06_hand h e5
+  refine ⟨HandRank.ofValue v, ?_, ?_, e, ?_, hn, hc⟩
+  · unfold handRank; rw [e]; rfl
+  · unfold handRankValidated; rw [ev]; rfl
+  · cases hi : (HandRank.ofValue v).isInvalid with
+    | false => rfl
+    | true => have := (isInvalid_iff v).mp hi; omega
+
+/-- for six or seven distinct real cards the reported rank names the category and class of the best
+    five-card hand they contain -/
+theorem C06_hand_rank_six_seven {n : Nat} (hn : n = 6 ∨ n = 7) {cs : List Card} (h : IsHand n cs) :
+    ∃ r best, best ∈ combos 5 cs ∧ handRank packed (words cs) = some r ∧
+      handRankValidated packed (words cs) = some r ∧ r.isInvalid = false ∧
+      (∀ sub ∈ combos 5 cs, handStrength sub ≤ handStrength best) ∧
+      Gen.nameNames.getD r.name "" = categoryName (handStrength best / 13 ^ 5) ∧
+      Gen.classNames.getD r.cls "" = specName (descrOfStrength (handStrength best)) := by
+  obtain ⟨v, best, hb, a1, a2, e, ev, eb, _, hs, _⟩ := C02.C02_best_of hn h
+  obtain ⟨_, _, _, hc, hnm⟩ := C06_hand (sub_isHand h hb) eb
+  refine ⟨HandRank.ofValue v, best, hb, ?_, ?_, ?_, hs, hnm, hc⟩
+  · unfold handRank; rw [e]; rfl
+  · unfold handRankValidated; rw [ev]; rfl
+  · cases hi : (HandRank.ofValue v).isInvalid with
+    | false => rfl
+    | true => have := (isInvalid_iff v).mp hi; omega
+
 end C06
 
 #print axioms C06.C06_invalid_iff
@@ -82,3 +117,5 @@ end C06
 #print axioms C06.C06_contiguous
 #print axioms C06.C06_consistent
 #print axioms C06.C06_hand
+#print axioms C06.C06_hand_rank_five
+#print axioms C06.C06_hand_rank_six_seven
